@@ -164,8 +164,20 @@ func genCase(t *rapid.T) Case {
 			}
 			c.Ops = append(c.Ops, op("step"))
 		}
-		if rapid.IntRange(0, 2).Draw(t, "end") == 0 {
+		switch rapid.IntRange(0, 5).Draw(t, "end") {
+		case 0, 1:
 			c.Ops = append(c.Ops, op("nextindex"))
+		case 2, 3:
+			// the committed block (if any) becomes the head, the node enters the next round, and precommits
+			// for the committed block keep arriving (the node merges them into the stored header)
+			c.Ops = append(c.Ops, op("advance"))
+			for n := rapid.IntRange(0, 3).Draw(t, "nlate"); n > 0; n-- {
+				o := op("late-precommit")
+				if rapid.IntRange(0, 2).Draw(t, "honestlate") == 0 {
+					o.D = 0
+				}
+				c.Ops = append(c.Ops, o)
+			}
 		}
 	}
 	return c
@@ -235,10 +247,24 @@ type world struct {
 	hist    []string
 	labels  map[string]bool
 
+	// the last block the node committed (header as assembled and verified), for late precommits
+	last *commitRec
+	// commit of the current round, not yet adopted as the head (op "advance")
+	pending *commitRec
+
 	// tally model for the current (round, index)
 	first  map[ucon.VoteType]map[int]common.Hash // sender -> block of its first counted vote
 	equiv  map[ucon.VoteType]map[int]bool
 	weight map[ucon.VoteType]map[int]uint32
+}
+
+// commitRec is a committed block with the header the node assembled for it.
+type commitRec struct {
+	round  uint64
+	index  uint32 // round index of the vote container
+	header *types.Header
+	voted  map[int]bool // senders whose precommit for it was counted
+	seen   int          // entries of chain.Updated already judged
 }
 
 func (w *world) resetTally() {
@@ -411,6 +437,46 @@ func crypto3(b byte) common.Hash {
 	return common.BytesToHash([]byte{0xab, b % 3, 0xcd, 1, 2, 3, 4, 5, 6, 7, 8, 9, 10, 11, 12, 13, 14, 15, 16, 17, 18, 19, 20, 21, 22, 23, 24, 25, 26, 27, 28, b % 3})
 }
 
+// sendLateVote delivers a precommit for the block committed in the previous round (w.last).
+// variant 0 honest, 3 inflated weight, 4 credential of another step, 11 signature over another block,
+// 12 zero-seat sender claiming one seat. It reports whether the vote is genuine.
+func (w *world) sendLateVote(sender int, variant int) bool {
+	sp := w.set.Specs[sender]
+	r, ri := w.last.round, w.last.index
+	hash := w.last.header.Hash()
+	step := uint32(ucon.Precommit)
+	credStep := step
+	if variant == 4 {
+		credStep = uint32(ucon.Prevote)
+	}
+	seed := w.chain.SeedOf(r - w.yp.SeedLookBack)
+	cr := cred(sp.Key, seed, ri, credStep, w.trip[1], sp.Stake, w.set.TotalChamber)
+	votes := cr.J
+	switch variant {
+	case 3:
+		votes += 1 + uint32(sender)
+	case 12:
+		if votes == 0 {
+			votes = 1
+		}
+	}
+	sigHash := hash
+	if variant == 11 {
+		sigHash = crypto3(7)
+	}
+	vote := &ucon.SingleVote{VoterIdx: uint32(w.set.Index[sender]), Votes: votes, Proof: cr.Proof,
+		Signature: blsSig(sp.Key, uk.VotePayload(sigHash, r, ri))}
+	err := w.rig.HandleMsg(uconrig.VoteMessage(sp.Key, codeOf[ucon.Precommit], r, ri, hash, common.Hash{}, vote))
+	genuine := cr.J >= 1 && votes == cr.J && credStep == step && sigHash == hash
+	w.logf("    late vote Precommit from v%d (stake %d) for (%d,%d) block %x weight %d (true seats %d) variant %d genuine %v -> %v", sender, sp.Stake, r, ri, hash[:4], votes, cr.J, variant, genuine, err)
+	if genuine {
+		w.labels["late-precommit-genuine"] = true
+	} else {
+		w.labels["late-precommit-bogus"] = true
+	}
+	return genuine
+}
+
 var codeOf = map[ucon.VoteType]uint8{ucon.Prevote: ucon.VerifMsgPrevote, ucon.Precommit: ucon.VerifMsgPrecommit,
 	ucon.NextIndex: ucon.VerifMsgNext, ucon.Certificate: ucon.VerifMsgCertificate}
 
@@ -535,7 +601,7 @@ func runCase(c Case) kit.Result {
 		return kit.Discarded("rig: " + err.Error())
 	}
 	w.rig = rig
-	w.col = uk.NewCollector(rig.Mux, ucon.SendMessageEvent{}, ucon.CommitEvent{}, ucon.RoundIndexChangeEvent{}, staking.Evidence{})
+	w.col = uk.NewCollector(rig.Mux, ucon.SendMessageEvent{}, ucon.CommitEvent{}, ucon.RoundIndexChangeEvent{}, staking.Evidence{}, ucon.UpdateExistedHeaderEvent{})
 	defer func() {
 		w.col.Quiesce()
 		w.col.Close()
@@ -564,8 +630,11 @@ func runCase(c Case) kit.Result {
 		}
 		var owns []own
 		var cms []ucon.CommitEvent
+		var ups []ucon.UpdateExistedHeaderEvent
 		for _, ev := range evs {
 			switch e := ev.(type) {
+			case ucon.UpdateExistedHeaderEvent:
+				ups = append(ups, e)
 			case ucon.SendMessageEvent:
 				var kind ucon.VoteType
 				switch uint8(e.Code) {
@@ -678,6 +747,48 @@ func runCase(c Case) kit.Result {
 				return &r
 			}
 			w.labels["commit-verified"] = true
+			if w.pending == nil {
+				rec := &commitRec{round: w.round, index: ce.RoundIndex, header: blk.Header(), voted: map[int]bool{}}
+				for s, fh := range w.first[ucon.Precommit] {
+					if fh == h && !w.equiv[ucon.Precommit][s] {
+						rec.voted[s] = true
+					}
+				}
+				w.pending = rec
+			}
+		}
+		// late precommits merged into the stored header of a committed block: the header must stay verifiable
+		for _, ue := range ups {
+			if w.last == nil || ue.BlockHash != w.last.header.Hash() {
+				continue
+			}
+			w.rig.VerifUpdateBlockHeader(ue)
+			for ; w.last.seen < len(w.chain.Updated); w.last.seen++ {
+				uh := w.chain.Updated[w.last.seen]
+				w.labels["stored-header-updated"] = true
+				w.logf("      -> node UPDATES the stored header of block %x (#%d) with late precommits", uh.Hash().Bytes()[:4], uh.Number.Uint64())
+				parent := types.NewBlockWithHeader(w.chain.GetHeaderByNumber(w.last.round - 1))
+				seedHeader := w.chain.GetHeaderByNumber(w.last.round - w.yp.SeedLookBack)
+				cp := w.yp.CaravelParams
+				var verr error
+				func() {
+					defer func() {
+						if r := recover(); r != nil {
+							verr = fmt.Errorf("verifier panicked: %v", r)
+						}
+					}()
+					if w.last.round%params.ACoCHTFrequency == 0 {
+						verr = verifier.VerifySideChainHeader(&cp, seedHeader, set.Reader, w.chain.GetHeaderByNumber(0), w.certSet.Reader, types.NewBlockWithHeader(uh), []*types.Block{parent})
+					} else {
+						verr = verifier.VerifySideChainHeader(&cp, seedHeader, set.Reader, nil, nil, types.NewBlockWithHeader(uh), []*types.Block{parent})
+					}
+				}()
+				if verr != nil {
+					r := fail("updated-header-rejected", "the node merged late precommits into the stored header of committed block %x (#%d); the stored header is now REJECTED by header verification: %v", uh.Hash().Bytes()[:4], uh.Number.Uint64(), verr)
+					return &r
+				}
+				w.labels["updated-header-verified"] = true
+			}
 		}
 		return nil
 	}
@@ -704,11 +815,59 @@ func runCase(c Case) kit.Result {
 				return *r
 			}
 		case "nextindex":
+			if w.pending != nil && w.pending.round == w.round {
+				continue // a node that has committed inserts the block and starts the next round: its round index never times out
+			}
 			w.index++
 			w.step = 0
 			w.resetTally()
 			w.logf("[%d] next round index: (%d,%d)", i, w.round, w.index)
 			if r := setContext(); r != nil {
+				return *r
+			}
+		case "advance":
+			// InsertChain of the committed block and StartNewRound, as far as consensus is concerned: the header
+			// the node assembled becomes the head of the chain, the node enters round+1 at index 1
+			if w.pending == nil || w.pending.round != w.round {
+				continue
+			}
+			w.last, w.pending = w.pending, nil
+			w.chain.Pin(w.round, types.CopyHeader(w.last.header))
+			w.chain.Head = w.round
+			w.last.seen = len(w.chain.Updated)
+			w.round++
+			w.index, w.step = 1, 0
+			w.blocks = map[string]*types.Block{}
+			w.resetTally()
+			w.labels["advanced-to-next-round"] = true
+			w.logf("[%d] block %x becomes the head; new round: (%d,%d)", i, w.last.header.Hash().Bytes()[:4], w.round, w.index)
+			if r := setContext(); r != nil {
+				return *r
+			}
+		case "late-precommit":
+			// a precommit for the block committed in the previous round arrives late
+			if w.last == nil || w.last.round+1 != w.round {
+				continue
+			}
+			var cands []int
+			for _, m := range w.members {
+				if m != 0 && !w.last.voted[m] {
+					cands = append(cands, m)
+				}
+			}
+			if len(cands) == 0 {
+				continue
+			}
+			sender := cands[op.B%len(cands)]
+			variant := []int{0, 0, 3, 4, 11, 12}[op.D%6]
+			if variant != 0 {
+				adversarial++
+			}
+			w.logf("[%d] deliver (late, for the block committed in round %d):", i, w.last.round)
+			if w.sendLateVote(sender, variant) {
+				w.last.voted[sender] = true
+			}
+			if r := process(); r != nil {
 				return *r
 			}
 		case "propose":
